@@ -186,10 +186,15 @@ outer:
 
 		// Check for stack overflow
 		if len(self.Stack) > int(self.Limits.StackMaxSize) {
+			// Report the position of the caller, or of the current frame if there is no caller (e.g. `main`).
+			overflowFrameIdx := len(self.CallStack) - 2
+			if overflowFrameIdx < 0 {
+				overflowFrameIdx = 0
+			}
 			self.SignalHandle <- self.fatalErr(
 				fmt.Sprintf("Runtime stack limit of %d was exceeded by %d", self.Limits.StackMaxSize, len(self.Stack)-int(self.Limits.StackMaxSize)),
 				value.VMFatalExceptionKind(value.Vm_StackOverFlowErrorKind),
-				self.parent.SourceMap(self.CallStack[len(self.CallStack)-2]),
+				self.parent.SourceMap(self.CallStack[overflowFrameIdx]),
 			)
 			return
 		}
